@@ -5,7 +5,7 @@ package forwarder
 
 // C06: credentials are confined to the hop they belong to.
 //
-//vf:assume C06-match: credential tables = every subset of {h1:80, h1:8080, [2001:db8::7]:80, *:80, h1:*, *:*} (6 entries, distinct users); targets: scheme http/https, host h1 / the IPv6 literal / h3, port absent/80/443/8080
+//vf:assume C06-match: credential tables = every subset of {h1:80, h1:8080, [2001:db8::7]:80, *:80, h1:*, *:*, Up.Example:8080} (7 entries, distinct users; one host spelt with capitals); targets: scheme http/https, host h1 / the IPv6 literal / h3 / Up.Example, port absent/80/443/8080
 //vf:assume C06-pipe: the real connection loop with a recording next hop; client Proxy-Authorization in 0..2 lines with symbolic 4-byte values, optionally nominated by Connection; optionally an upgrade request (Connection: Upgrade, Upgrade: websocket); upstream proxy given statically with or without userinfo, with or without a --credentials entry for the proxy host (URL userinfo wins when both exist), or selected by a PAC answer (scripted resolver) with or without such an entry; site credentials for the target
 //vf:assume C06: what http.Transport itself adds for plain HTTP via an upstream proxy (Proxy-Authorization from the proxy URL) is net/http code and outside; Kerberos is outside
 
@@ -27,7 +27,7 @@ import (
 
 type vfCredRow struct{ host, port, user string }
 
-var vfCredRows = []vfCredRow{{"h1", "80", "exact80"}, {"h1", "8080", "exact8080"}, {"2001:db8::7", "80", "v6exact"}, {"*", "80", "anyhost80"}, {"h1", "0", "h1anyport"}, {"*", "0", "global"}}
+var vfCredRows = []vfCredRow{{"h1", "80", "exact80"}, {"h1", "8080", "exact8080"}, {"2001:db8::7", "80", "v6exact"}, {"*", "80", "anyhost80"}, {"h1", "0", "h1anyport"}, {"*", "0", "global"}, {"Up.Example", "8080", "mixedcase"}}
 
 //vf:harness property=C06 nopanic reach=match-exact,match-port,match-host,match-global,match-none
 func vfH_C06_match() {
@@ -42,7 +42,7 @@ func vfH_C06_match() {
 	m, err := NewCredentialsMatcher(creds, vfLog{})
 	vfrt.Assert(err == nil, "match/table-accepted")
 	scheme := []string{"http", "https"}[vfrt.Choice("scheme", 2)]
-	host := []string{"h1", "2001:db8::7", "h3"}[vfrt.Choice("host", 3)]
+	host := []string{"h1", "2001:db8::7", "h3", "Up.Example"}[vfrt.Choice("host", 4)]
 	port := []string{"", "80", "443", "8080"}[vfrt.Choice("port", 4)]
 	hostport := host
 	if strings.Contains(host, ":") {
